@@ -37,6 +37,24 @@ def make_quadric(g, Q, dim):
                 out.append(("Circle", lambda: g.Circle(g.Point(*c), r)))
             else:
                 out.append(("Sphere", lambda: g.Sphere(g.Point(*c), r)))
+    # the same quadric as an object of class Circle / Sphere: the image of the unit circle / sphere under a projective map (a
+    # transformed object keeps its class), for quadrics of signature (dim, 1)
+    lam, V = np.linalg.eigh(np.asarray(Q, dtype=float))
+    sgn = 1.0
+    if np.sum(lam > 1e-9) == 1 and np.sum(lam < -1e-9) == dim:
+        lam, V, sgn = -lam[::-1], V[:, ::-1], -1.0
+    if np.sum(lam > 1e-9) == dim and np.sum(lam < -1e-9) == 1:
+        Tinv = np.diag(np.sqrt(np.abs(lam))) @ V.T                  # eigenvalues ascending: the negative direction comes first
+        Pm = np.roll(np.eye(dim + 1), -1, axis=0)                     # ... and is moved last
+        T = np.linalg.inv(Pm @ Tinv)
+
+        def image(T=T):
+            unit = g.Circle(g.Point(0, 0), 1) if dim == 2 else g.Sphere(g.Point(0, 0, 0), 1)
+            obj = g.Transformation(T) * unit
+            if not same_class(np.asarray(obj.array).reshape(-1), np.asarray(Q, dtype=float).reshape(-1), 1e-7):
+                raise MachineryError("the projective image of the unit sphere is not the requested quadric")
+            return obj
+        out.append((("Circle" if dim == 2 else "Sphere") + "[projective image of the unit one]", image))
     if dim == 2 and np.array_equal(Q, np.diag([4, 9, -36])):
         out.append(("Ellipse", lambda: g.Ellipse(g.Point(0, 0), 3, 2)))
     if dim == 3 and np.array_equal(Q, np.diag([1, 1, -1, 0])):
